@@ -29,6 +29,15 @@ impl Position {
             line_number,
         }
     }
+
+    /// Returns the byte range of the original code this position refers to, if any.
+    #[inline]
+    pub(crate) fn get_reference_range(&self) -> Option<(usize, usize)> {
+        match self {
+            Self::LineNumberReference { start, end, .. } => Some((*start, *end)),
+            Self::LineNumber { .. } | Self::Any { .. } => None,
+        }
+    }
 }
 
 /// An enum to represent source code text.
@@ -238,6 +247,12 @@ impl Token {
             | Position::LineNumberReference { line_number, .. } => Some(*line_number),
             Position::Any { .. } => None,
         }
+    }
+
+    /// Returns the byte range of the original code this token refers to, if any.
+    #[inline]
+    pub(crate) fn get_reference_range(&self) -> Option<(usize, usize)> {
+        self.position.get_reference_range()
     }
 
     /// Replaces the token's content with new content while preserving line number information.
